@@ -201,6 +201,10 @@ func (b *assignmentBuilder) structFieldAndStructGettersAndFields(lhs bmodel.Node
 			nestStruct.Contents, err = b.structToStruct(lhs, rhs, nil)
 			if err == nil && 0 < len(nestStruct.Contents) {
 				a = nestStruct
+			} else {
+				// Nothing inside the struct can be copied (it has no accessible member):
+				// report the field itself instead of dropping it silently.
+				nested = false
 			}
 		}
 		return true
